@@ -223,6 +223,10 @@ def run_c18(chk, prog):
                            key="ssb:recv-delay:%s" % "/".join(sorted(sts)), where=where)
                 elif rk == {"ReportState"} and (sts & inprog):
                     chk.unproven("C18.O1", "ssb:recv-mixed", "the receive delay is decided on a path mixing in-progress and other states (%s)" % sorted(sts), where)
+                elif "ReportState" in rk and (sts & inprog) and d < 100:
+                    # the path does not look at the reply (closely enough), so an in-progress report takes it too - without the hold
+                    chk.ob("C18.O1", "a page load/show in-progress report answering %s is held for >= 100 ms%s" % (kdesc, tag), False, key="ssb:recv-delay-missing:%s" % kdesc, where=where,
+                           detail="a path that an in-progress report can take returns after sleeping %d ms" % d)
                 else:
                     chk.ob("C18.O1", "no receive delay for other replies%s" % tag, not post, key="ssb:recv-delay-extra", where=where,
                            detail="reply kinds %s states %s sleeps %s" % (sorted(rk)[:4], sorted(sts)[:4], [fmt_term(e[2][0]) for e in post]))
